@@ -140,9 +140,9 @@ theorem commit_facts (p : Params K) (hmin : 0 < p.minLen) (s : St K V) (h : Reac
     (s.l t).fnres = some (f (s.l t).old) ∧ (s.l t).old = (s.g.tables (s.l t).tbl).data.get k ∧
       (lie = true → (s.l t).old = none) := by
   refine ⟨fr_reach p s h t hpc k f lie co hop, ?_, ?_⟩
-  · exact ((dinv_reach p hmin s h).ld t).old (Or.inr hpc) k (by simp [opKey, hop])
+  · exact ((dinv_reach p hmin s h).ld t).old (Or.inr (Or.inr hpc)) k (by simp [opKey, hop])
   · intro hl
-    exact ((inv_reach p s h).2 t).wf.lieold (Or.inr hpc) (by simp [dcFlags, hop, hl])
+    exact ((inv_reach p s h).2 t).wf.lieold (Or.inr (Or.inr hpc)) (by simp [dcFlags, hop, hl])
 
 /-- **(1a)** the commit of a writer working on the current table is a step of the sequential specification:
 the abstract binding of the key goes from `absGet s.g k` to `(specDc … (absGet s.g k)).1`, and the result of
@@ -164,7 +164,8 @@ theorem commit_is_spec_step (p : Params K) (hmin : 0 < p.minLen) (s : St K V) (h
     exact commit_changes_only_key p t s.g (s.l t) c g' l' hpc hs k' (by simp [opKey, hop]; exact hk')
 
 /-- shape of the step at `dcScan` (under the bucket lock): nothing shared changes; a hit of a `loadIfExists` call
-fixes the result; otherwise the binding found is remembered in `old` -/
+fixes the result; otherwise the binding found is remembered in `old` (and, when the chain is full, the counter is
+summed for the grow check: `dcSum`) -/
 theorem scan_step (p : Params K) (t : Tid) (g : G K V) (l : L K V) (c : Choice K V) (g' : G K V) (l' : L K V)
     (k : K) (f : Option V → V × Bool) (lie co : Bool)
     (hop : l.op = some (.dc k f lie co)) (hpc : l.pc = .dcScan)
@@ -173,7 +174,7 @@ theorem scan_step (p : Params K) (t : Tid) (g : G K V) (l : L K V) (c : Choice K
     ((l'.pc = .dcUnlock ∧ lie = true ∧ ∃ x, (g.tables l.tbl).data.get k = some x ∧
         l'.result = some (.val (some x) (!co))) ∨
      (l'.pc = .dcFn ∧ l'.old = (g.tables l.tbl).data.get k ∧ l'.result = l.result) ∨
-     (l'.pc = .dcUnlockGrow ∧ l'.result = l.result)) := by
+     (l'.pc = .dcSum ∧ l'.old = (g.tables l.tbl).data.get k ∧ l'.result = l.result)) := by
   simp only [tstep, hpc, opKey, dcFlags, hop] at hs
   (repeat' split at hs) <;> simp only [Option.some.injEq, Prod.mk.injEq] at hs <;>
     obtain ⟨rfl, rfl⟩ := hs <;> simp_all
@@ -501,7 +502,7 @@ theorem result_stable (p : Params K) (s s' : St K V) (hreach : Reach p s) (t : T
 
 /-- a writer past both re-checks (`resizing`, `cur`) that has not committed yet -/
 def past2 : Pc → Bool
-  | .dcScan | .dcFn | .dcCommit => true
+  | .dcScan | .dcSum | .dcFn | .dcCommit => true
   | _ => false
 
 theorem past2_pastChk (pc : Pc) (h : past2 pc = true) : pastChk pc = true := by
@@ -558,6 +559,8 @@ theorem past2_step (p : Params K) (t : Tid) (g : G K V) (l : L K V) (c : Choice 
       ((past2 l.pc = true ∧ l.pc ≠ .dcCommit) ∨ (l.pc = .dcChkTable ∧ g.cur = l.tbl)) := by
   have hP := popCont_pc_ne l
   have hS := fun l op => (startOp_pc_ne (K := K) (V := V) l op)
+  have hP2 : (popCont l).pc ≠ .dcSum := by have := (popCont_pc l).1; grind
+  have hS2 : ∀ (l : L K V) op, (startOp l op).pc ≠ .dcSum := fun l op => by have := (startOp_pc l op).1; grind
   cases hpc : l.pc <;> simp only [tstep, hpc] at hs <;> (repeat' split at hs) <;>
     simp only [Option.some.injEq, reduceCtorEq, Prod.mk.injEq] at hs <;> obtain ⟨rfl, rfl⟩ := hs <;>
     simp_all [past2, callResize, callWait]
@@ -594,8 +597,8 @@ theorem data_key_step (p : Params K) (hmin : 0 < p.minLen) (s : St K V) (h : Rea
       · subst hTe; exact Or.inl (hkey k hk)
     · exact Or.inl (by rw [hoth T hTe])
   left
-  by_cases h2 : (s.l t).pc = .rzDecide
-  · obtain ⟨-, -, -, -, -, hcase⟩ := decide_shape p t s.g (s.l t) c g' l' hmin (hdi.gd.lenPos _) h2 hs
+  by_cases h2 : (s.l t).pc = .rzDecide ∨ (s.l t).pc = .rzDecideSum
+  · obtain ⟨-, -, -, -, -, hcase⟩ := decide_shape p t s.g (s.l t) c g' l' hmin (hdi.gd.lenPos _) hd.shr h2 hs
     rcases hcase with ⟨e, -⟩ | ⟨len, -, hc, -, -, hoth, -, -⟩
     · rw [e]
     · have := hg.2
@@ -671,7 +674,7 @@ theorem helped_result (p : Params K) (hmin : 0 < p.minLen) (s : St K V) (h : Rea
         (g'.tables (s.l u).tbl).data.get k = (specDc f lie co (s.l u).old).1 ∧
         l'.result = some (.val (specDc f lie co (s.l u).old).2.1 (specDc f lie co (s.l u).old).2.2) ∧
         ((s.l u).tbl ≠ s.g.cur → ∀ k', absGet g' k' = absGet s.g k'))) := by
-  have hold := ((dinv_reach p hmin s h).ld u).old hpc k (by simp [opKey, hop])
+  have hold := ((dinv_reach p hmin s h).ld u).old (Or.inr hpc) k (by simp [opKey, hop])
   refine ⟨hold, fun e => by rw [hold, e]; rfl, fun c g' l' hs => ⟨fun h1 => ?_, fun h1 => ?_⟩⟩
   · obtain ⟨e1, e2, e3, e4, e5, -⟩ := fn_step p u s.g (s.l u) c g' l' h1 hs
     exact ⟨e1, e2, e3, e4, e5⟩
@@ -1292,5 +1295,59 @@ theorem writer_linearizable (p : Params K) (hmin : 0 < p.minLen) (pre mid : List
     exact ⟨e, he, hne, hh, clear_publish_empties p hmin e.pre hr e.tid e.ch _ _ hpc hhint hts, ha, hb⟩
   · right; right
     exact ⟨hl, x, ha, hb, wit_run p mid s0 s' h1 k _ hw⟩
+
+/-! ## part: the `Size()` call is exact when it does not overlap a modifying call -/
+
+/-- **`Size()` is exact when no modifying call overlaps it.**  Thread `t` is at the first pc of `Size` in the reachable
+state `s0`; no writer is between its commit and its counter update on the current table in `s0` (`hq`); during `mid`
+thread `t` does not return (`NoRet`: it is still the same call at the end) and every step of another thread is taken
+at a read-only pc (`roPc`: starting a call, `Load`, the lock-free fast path, `Size`, returning).  If `t` is about to
+return at the end of `mid`, the value it returns — the stripes summed one atomic load at a time — is the number of
+entries of the table.  (`hst`: every table has at least one counter stripe.) -/
+theorem size_call_exact (p : Params K) (hmin : 0 < p.minLen) (hst : ∀ n, 0 < p.stripes n) (s0 s' : St K V)
+    (h : Reach p s0) (t : Tid) (hpc : (s0.l t).pc = .szTable)
+    (hq : ∀ u, pendingOn (s0.l u) s0.g.cur = false)
+    (mid : List (Tid × Choice K V)) (hr : run p s0 mid = some s')
+    (hn : NoRet t (events p s0 mid))
+    (hro : ∀ e ∈ events p s0 mid, e.tid ≠ t → roPc (e.pre.l e.tid).pc = true)
+    (hret : (s'.l t).pc = .ret) :
+    (s'.l t).result = some (.size ((s0.g.tables s0.g.cur).data.length)) := by
+  have key := hist_run p
+    (fun H x => NoRet t H → (∀ e ∈ H, e.tid ≠ t → roPc (e.pre.l e.tid).pc = true) →
+      x.g = s0.g ∧ SzL s0.g.cur (s0.g.tables s0.g.cur).ctr (p.stripes (s0.g.tables s0.g.cur).len) (x.l t))
+    ?_ mid s0 s' [] h (fun _ _ => ⟨rfl, Or.inl hpc⟩) hr
+  · obtain ⟨-, hL⟩ := key (by simpa using hn) (by simpa using hro)
+    rcases hL with e | ⟨e, -⟩ | ⟨-, e⟩
+    · rw [hret] at e; cases e
+    · rw [hret] at e; cases e
+    · rw [e, ← total_eq, total_exact_no_pending p hmin hst s0 h hq]
+  · intro H x u c x' hx hJ hs hnr hro'
+    have hnH : NoRet t H := fun e he => hnr e (List.mem_append_left _ he)
+    obtain ⟨hg, hL⟩ := hJ hnH (fun e he => hro' e (List.mem_append_left _ he))
+    obtain ⟨hts, hoth⟩ := step_def p x x' u c hs
+    by_cases hu : u = t
+    · subst hu
+      have hpcr : (x.l u).pc ≠ .ret := hnr ⟨x, u, c, x'⟩ (by simp) rfl
+      obtain ⟨e1, e2⟩ := szL_step p u x.g (x.l u) c x'.g (x'.l u) _ _ _ (hst _) (by rw [hg]) (by rw [hg]) (by rw [hg])
+        hL hpcr hts
+      exact ⟨by rw [e1, hg], e2⟩
+    · have hro1 := hro' ⟨x, u, c, x'⟩ (by simp) hu
+      have e1 := ro_step_g p u x.g (x.l u) c x'.g (x'.l u) hro1 hts
+      rw [hoth t (Ne.symm hu)]; exact ⟨by rw [e1, hg], hL⟩
+
+/-- the same, with the hypothesis on the start state spelled out by pcs: every other thread is at a read-only pc
+(idle, in a `Load`/`Size`, returning), hence has no pending counter delta -/
+theorem size_call_exact_ro (p : Params K) (hmin : 0 < p.minLen) (hst : ∀ n, 0 < p.stripes n) (s0 s' : St K V)
+    (h : Reach p s0) (t : Tid) (hpc : (s0.l t).pc = .szTable)
+    (hq : ∀ u, u ≠ t → roPc (s0.l u).pc = true)
+    (mid : List (Tid × Choice K V)) (hr : run p s0 mid = some s')
+    (hn : NoRet t (events p s0 mid))
+    (hro : ∀ e ∈ events p s0 mid, e.tid ≠ t → roPc (e.pre.l e.tid).pc = true)
+    (hret : (s'.l t).pc = .ret) :
+    (s'.l t).result = some (.size ((s0.g.tables s0.g.cur).data.length)) := by
+  refine size_call_exact p hmin hst s0 s' h t hpc (fun u => ?_) mid hr hn hro hret
+  by_cases hu : u = t
+  · subst hu; exact ro_not_pending _ _ (by rw [hpc]; rfl)
+  · exact ro_not_pending _ _ (hq u hu)
 
 end Proofs.ProtoLin
